@@ -31,10 +31,17 @@ def jobs(tier):
             js.append(dict(name="%s/n4" % e.name, entry=e.name, backend="snarkjs", catalogue="checks.cat_c16",
                            cfg=dict(n=4, r=2, guard=None, bound=(1 << 20)), tier=tier, weight=1))
     from . import cat_c14
-    for e in cat_c14.build(8, "quick"):
-        if "assert" in e.tags:
-            js.append(dict(name="%s/n8r2" % e.name, entry=e.name, backend="snarkjs", catalogue="checks.cat_c14",
-                           cfg=dict(n=8, r=2, guard=None, bound=(1 << 30)), tier=tier, weight=2))
+    # fixed-point assertions at several (bitlength, resolution) pairs: the scale of plain int/float operands must follow
+    # the configured resolution, and the width must leave room for accepted operands at that scale
+    confs = [(8, 2), (16, 4)] if tier == "quick" else [(8, 2), (16, 4), (16, 8), (16, 10), (24, 12)]
+    for (n, r) in confs:
+        for e in cat_c14.build(n, "quick"):
+            if "assert" in e.tags:
+                if e.name == "fxp_assert_range" and n > 8:
+                    continue        # two 16-bit decompositions on one path: the path-model query does not return; n=8 here,
+                                    # the int-constant operand at other resolutions is covered by the _Fi entries
+                js.append(dict(name="%s/n%dr%d" % (e.name, n, r), entry=e.name, backend="snarkjs", catalogue="checks.cat_c14",
+                               cfg=dict(n=n, r=r, guard=None, bound=(1 << (n + 6))), tier=tier, weight=2))
     for e in CAT.build(4, "quick"):
         if e.name in ("assert_lt_ss", "assert_eq_ss", "assert_positive", "assert_range_cc", "assert_nonzero", "assert_ge_sc3"):
             for pre in (["false_region"], ["aborted_region"], ["self_first"]):
